@@ -697,6 +697,9 @@ class MatrixGaussianError(GaussianErrorBase):
 
     @property
     def cor_mat(self):
+        if self.relative:
+            _ = self.cov_mat_rel  # call to calculate CovMat
+            return self._cov_mat_rel.cor_mat
         _ = self.cov_mat  # call to initialize
         return self._cov_mat.cor_mat
 
